@@ -70,6 +70,8 @@ func runReaders(w *out.W, tier, outDir string) {
 	)
 	// third-party files as people write them (exhaustive small domain, with required statement lists)
 	cases = append(cases, shapeCases()...)
+	// statements that end in a comment, all five readers, first/middle/last position
+	cases = append(cases, tailCases()...)
 	// perturbations of real formatter output
 	r := rng.FromEnv(0xC0704)
 	n := 400
@@ -158,7 +160,11 @@ func runReaders(w *out.W, tier, outDir string) {
 			w.NonTrivial(c.fm.name + "/" + obs)
 		}
 		if c.want != nil && (rerr != nil || !reflect.DeepEqual(got, c.want)) {
-			w.Violation(id, "reader-hand-made", fmt.Sprintf("%s: expected %q, the reader returned %q (error: %v)", c.desc, c.want, got, rerr))
+			cls := "reader-hand-made"
+			if i := strings.Index(c.desc, " hazard="); i >= 0 {
+				cls = c.desc[i+len(" hazard="):] // input class of a known reader defect (shapes.go: tailHazard)
+			}
+			w.Violation(id, cls, fmt.Sprintf("%s: expected %q, the reader returned %q (error: %v)", c.desc, c.want, got, rerr))
 		}
 	}
 }
